@@ -1,6 +1,7 @@
 mod conc;
 mod eval;
 mod extkey;
+mod group;
 mod refgroup;
 mod record;
 mod replay;
@@ -318,6 +319,39 @@ fn main() {
             }
             println!("{}", json!({"executions": o.0, "values_checked": o.1, "term_evaluations": o.2,
                 "suites": sel.iter().map(|s| s.name()).collect::<Vec<_>>(), "violations": vio, "samples": o.4}));
+        }
+        "group" => {
+            // C19
+            let sel = select_suites(&all, &args.get("suites", "all"), seed);
+            let f = std::fs::File::open(args.get("behaviours", "")).expect("behaviours");
+            let lines: Vec<Value> = std::io::BufReader::new(f).lines().map(|l| serde_json::from_str(&l.unwrap()).unwrap()).collect();
+            let xf = std::fs::File::open(args.get("behaviours-x", "")).expect("behaviours-x");
+            let xlines: Vec<Value> = std::io::BufReader::new(xf).lines().map(|l| serde_json::from_str(&l.unwrap()).unwrap()).collect();
+            let nrand = args.num("random", 200) as usize;
+            let results: Vec<Value> = std::thread::scope(|sc| {
+                let hs: Vec<_> = sel.iter().map(|s| {
+                    let (lines, xlines) = (&lines, &xlines);
+                    sc.spawn(move || {
+                        let ls = if s.ke() == "Curve25519" { xlines } else { lines };
+                        let (mut steps, mut values, mut vio) = (0, 0, Vec::new());
+                        for (i, l) in ls.iter().enumerate() {
+                            let o = group::run_behaviour(*s, seed, l);
+                            steps += o.steps;
+                            values += o.values;
+                            if let Some(mut v) = o.violation {
+                                v["behaviour_index"] = json!(i);
+                                v["line"] = l.clone();
+                                if vio.len() < 3 { vio.push(v); }
+                            }
+                        }
+                        let (re, rv) = group::random_keys(*s, seed, nrand);
+                        if let Some(v) = rv { vio.push(v); }
+                        json!({"suite": s.name(), "behaviours": ls.len(), "steps": steps, "values": values, "random_keys": re, "violations": vio})
+                    })
+                }).collect();
+                hs.into_iter().map(|h| h.join().unwrap()).collect()
+            });
+            println!("{}", json!({"results": results}));
         }
         "wire-replay" => {
             let v: Value = serde_json::from_str(&std::fs::read_to_string(args.get("file", "")).expect("replay file")).unwrap();
